@@ -79,7 +79,7 @@ def point_to_ellipsoid(
              - radii2point2[0] * pqr2[1] * pqr2[2]
              - radii2point2[1] * pqr2[0] * pqr2[2]
              - radii2point2[2] * pqr2[0] * pqr2[1])
-        if abs(s) < epsilon:
+        if abs(s) < epsilon * pqr2[0] * pqr2[1] * pqr2[2]:
             break
 
         pq = pqr[0] * pqr[1]
